@@ -778,6 +778,33 @@ end
 
 /-! ## declarations -/
 
+/-- no token of the body is a terminator of the method (the body is cut out by `take_until`) -/
+def termFreeB (ks : List Kind) (b : List Tok) : Bool := b.all (fun t => !ks.contains t.kind)
+
+/-- an annotation `[ … ]` (anything up to the next `]`); it leaves no trace in the tree of the declaration it precedes -/
+structure Ann where
+  lb    : Tok
+  inner : List Tok
+  rb    : Tok
+
+def Ann.toks (a : Ann) : List Tok := a.lb :: (a.inner ++ [a.rb])
+def Ann.WF (a : Ann) : Prop :=
+  a.lb.kind = Kind.OSqrBracket ∧ termFreeB [Kind.CSqrBracket] a.inner = true ∧ a.rb.kind = Kind.CSqrBracket
+def Ann.wfb (a : Ann) : Bool :=
+  a.lb.kind == Kind.OSqrBracket && termFreeB [Kind.CSqrBracket] a.inner && a.rb.kind == Kind.CSqrBracket
+
+def optAnnToks : Option Ann → List Tok
+  | none => []
+  | some a => a.toks
+
+def optAnnWF : Option Ann → Prop
+  | none => True
+  | some a => a.WF
+
+def optAnnWfb : Option Ann → Bool
+  | none => true
+  | some a => a.wfb
+
 /-- a method name: `Name` or `Name#Event` -/
 inductive MName where
   | plain (t : Tok)
@@ -859,16 +886,18 @@ inductive Decl (ε : Type) where
   | func (kw : Tok) (name : MName) (ps : Option ParamList) (ret ty : Tok) (mods : List Mod) (body : Option (List (Stmt ε) × Tok))
   /-- `const c = literal [multiLang]` -/
   | const (kw name eq lit : Tok) (ml : Option Tok)
-  /-- `[memory] f : T [private|protected|final|override]* [absolute x]` -/
-  | field (mem : Option Tok) (name colon : Tok) (ty : TyX) (mods : List Tok) (abs : Option (Tok × Tok))
-  /-- `type aName : T` -/
-  | typeD (kw name colon : Tok) (ty : TyX)
-  /-- `module aName` -/
-  | module (kw name : Tok)
+  /-- `[[annotation]] [memory] f : T [private|protected|final|override]* [absolute x]` -/
+  | field (ann : Option Ann) (mem : Option Tok) (name colon : Tok) (ty : TyX) (mods : List Tok) (abs : Option (Tok × Tok))
+  /-- `[[annotation]] type aName : T` -/
+  | typeD (ann : Option Ann) (kw name colon : Tok) (ty : TyX)
+  /-- `[[annotation]] module aName` -/
+  | module (ann : Option Ann) (kw name : Tok)
+  /-- an annotation on its own (not followed by a class, module, type or field) -/
+  | annD (a : Ann)
   /-- `uses a, b, …` -/
   | uses (kw first : Tok) (rest : List (Tok × Tok))
-  /-- `class aName [(aParent)]` -/
-  | cls (kw name : Tok) (parent : Option (Tok × Tok × Tok))
+  /-- `[[annotation]] class aName [(aParent)]` -/
+  | cls (ann : Option Ann) (kw name : Tok) (parent : Option (Tok × Tok × Tok))
 
 def bodyToks : Option (List (Stmt ε) × Tok) → List Tok
   | none => []
@@ -879,11 +908,12 @@ def Decl.toks : Decl ε → List Tok
   | .func kw name ps ret ty mods body =>
     kw :: (name.toks ++ (optParamsToks ps ++ ret :: ty :: (modsToks mods ++ bodyToks X body)))
   | .const kw name eq lit ml => constToks kw name eq lit ml
-  | .field mem name colon ty mods abs => mem.toList ++ name :: colon :: (ty.toks ++ (mods ++ absToks abs))
-  | .typeD kw name colon ty => kw :: name :: colon :: ty.toks
-  | .module kw name => [kw, name]
+  | .field ann mem name colon ty mods abs => optAnnToks ann ++ (mem.toList ++ name :: colon :: (ty.toks ++ (mods ++ absToks abs)))
+  | .typeD ann kw name colon ty => optAnnToks ann ++ kw :: name :: colon :: ty.toks
+  | .module ann kw name => optAnnToks ann ++ [kw, name]
+  | .annD a => a.toks
   | .uses kw first rest => usesToks kw first rest
-  | .cls kw name parent => kw :: name :: parentToks parent
+  | .cls ann kw name parent => optAnnToks ann ++ kw :: name :: parentToks parent
 
 /-- `method_body`: spans its statements; an empty body has the range of the node before it -/
 def bodyTree (before : Range) (stmts : List Tree) : Tree :=
@@ -919,7 +949,7 @@ def Decl.tree : Decl ε → Tree
        | none => ty.rng)
       (modsAttrs mods) (bodyTrees X body)
   | .const kw name _ lit _ => constTree kw name lit
-  | .field mem name _ ty mods abs =>
+  | .field _ mem name _ ty mods abs =>
     mk "gvar_decl" name.value
       (Range.span (match mem with | some m => m.rng | none => name.rng)
         (match abs, mods with
@@ -927,17 +957,15 @@ def Decl.tree : Decl ε → Tree
          | none, m :: rest => (((m :: rest).getLast?).getD m).rng
          | none, [] => ty.tree.rng))
       ([ty.tree] ++ absTrees abs) (mods.map (fun t => t.kind.name)) (some name.rng)
-  | .typeD kw name _ ty => typeDeclTree kw name ty
-  | .module kw name => mk "module" name.value (Range.span kw.rng name.rng) [] [] (some name.rng)
+  | .typeD _ kw name _ ty => typeDeclTree kw name ty
+  | .module _ kw name => mk "module" name.value (Range.span kw.rng name.rng) [] [] (some name.rng)
+  | .annD _ => emptyDefault
   | .uses kw first rest => usesTree kw first rest
-  | .cls kw name parent =>
+  | .cls _ kw name parent =>
     match parent with
     | none => mk "class" name.value (Range.span kw.rng name.rng) [] [] (some name.rng)
     | some (_, p, rp) =>
       mk "class" name.value (Range.span kw.rng rp.rng) [] ["parent=" ++ p.value, "prng=" ++ encRng p.rng] (some name.rng)
-
-/-- no token of the body is a terminator of the method (the body is cut out by `take_until`) -/
-def termFreeB (ks : List Kind) (b : List Tok) : Bool := b.all (fun t => !ks.contains t.kind)
 
 /-- the body of a method that ends with a token of kind `endK` (and may not contain `endK` or `end`);
     a body is there exactly when no modifier says `forward` / `external` -/
@@ -957,13 +985,14 @@ def Decl.WF : Decl ε → Prop
     kw.kind = Kind.Func ∧ name.WF ∧ optParamsWF ps ∧ ret.kind = Kind.Return ∧ ty.kind = Kind.Identifier ∧
     modsWF mods ∧ bodyWF X Kind.EndFunc mods body
   | .const kw name eq lit ml => constWF kw name eq lit ml
-  | .field mem name colon ty mods abs =>
-    (∀ m, mem = some m → m.kind = Kind.Memory) ∧ name.kind = Kind.Identifier ∧ colon.kind = Kind.Colon ∧
+  | .field ann mem name colon ty mods abs =>
+    optAnnWF ann ∧ (∀ m, mem = some m → m.kind = Kind.Memory) ∧ name.kind = Kind.Identifier ∧ colon.kind = Kind.Colon ∧
     ty.WF ∧ (∀ t ∈ mods, t.kind ∈ memberModKinds) ∧ absWF abs
-  | .typeD kw name colon ty => typeDeclWF kw name colon ty
-  | .module kw name => kw.kind = Kind.Module ∧ name.kind = Kind.Identifier
+  | .typeD ann kw name colon ty => optAnnWF ann ∧ typeDeclWF kw name colon ty
+  | .module ann kw name => optAnnWF ann ∧ kw.kind = Kind.Module ∧ name.kind = Kind.Identifier
+  | .annD a => a.WF
   | .uses kw first rest => usesWF kw first rest
-  | .cls kw name parent => kw.kind = Kind.Class ∧ name.kind = Kind.Identifier ∧ parentWF parent
+  | .cls ann kw name parent => optAnnWF ann ∧ kw.kind = Kind.Class ∧ name.kind = Kind.Identifier ∧ parentWF parent
 
 def Decl.wfb : Decl ε → Bool
   | .proc kw name ps mods body =>
@@ -972,15 +1001,26 @@ def Decl.wfb : Decl ε → Bool
     kw.kind == Kind.Func && name.wfb && optParamsWfb ps && ret.kind == Kind.Return && ty.kind == Kind.Identifier &&
     modsWfb mods && bodyWfb X Kind.EndFunc mods body
   | .const kw name eq lit ml => constWfb kw name eq lit ml
-  | .field mem name colon ty mods abs =>
-    (match mem with | some m => m.kind == Kind.Memory | none => true) && name.kind == Kind.Identifier &&
+  | .field ann mem name colon ty mods abs =>
+    optAnnWfb ann && (match mem with | some m => m.kind == Kind.Memory | none => true) && name.kind == Kind.Identifier &&
     colon.kind == Kind.Colon && ty.wfb && mods.all (fun t => memberModKinds.contains t.kind) && absWfb abs
-  | .typeD kw name colon ty => typeDeclWfb kw name colon ty
-  | .module kw name => kw.kind == Kind.Module && name.kind == Kind.Identifier
+  | .typeD ann kw name colon ty => optAnnWfb ann && typeDeclWfb kw name colon ty
+  | .module ann kw name => optAnnWfb ann && kw.kind == Kind.Module && name.kind == Kind.Identifier
+  | .annD a => a.wfb
   | .uses kw first rest => usesWfb kw first rest
-  | .cls kw name parent => kw.kind == Kind.Class && name.kind == Kind.Identifier && parentWfb parent
+  | .cls ann kw name parent => optAnnWfb ann && kw.kind == Kind.Class && name.kind == Kind.Identifier && parentWfb parent
 
 /-! ## programs -/
+
+/-- what may follow an annotation that stands on its own: the end of the file, or a declaration the annotation
+    cannot belong to (`class`, `module`, `type` and fields take a preceding annotation) -/
+def annFollowB : List Tok → Bool
+  | [] => true
+  | t :: _ => [Kind.Proc, Kind.Func, Kind.Const, Kind.Uses, Kind.OSqrBracket].contains t.kind
+
+def Decl.followB : Decl ε → List Tok → Bool
+  | .annD _, next => annFollowB next
+  | _, _ => true
 
 abbrev Prog (ε : Type) := List (Decl ε)
 
@@ -997,11 +1037,11 @@ def Prog.tree (p : Prog ε) : Tree := mk "root" "" Range.zero (Prog.trees X p)
 
 def Prog.WF : Prog ε → Prop
   | [] => True
-  | d :: rest => d.WF X ∧ Prog.WF rest
+  | d :: rest => d.WF X ∧ d.followB (Prog.toks X rest) = true ∧ Prog.WF rest
 
 def Prog.wfb : Prog ε → Bool
   | [] => true
-  | d :: rest => d.wfb X && Prog.wfb rest
+  | d :: rest => d.wfb X && d.followB (Prog.toks X rest) && Prog.wfb rest
 
 /-! ## the instance for `Ex` -/
 
